@@ -37,6 +37,9 @@ type Case struct {
 	Reason   string   `json:"reason,omitempty"`  // for OUT
 	ExpOut   string   `json:"specOut,omitempty"`
 	Features []string `json:"features,omitempty"`
+	// NoData: the entry template is called without any argument (JS) / with a
+	// nil data map (Go)
+	NoData bool `json:"noData,omitempty"`
 	// SkipOK: a compile rejection is expected for some cases (model programs)
 	SkipOK bool `json:"-"`
 	// Predicted is the JS output an implementation-shaped model predicts
@@ -190,7 +193,11 @@ func (r *Runner) Exec(c *Case) {
 	if c.Prog.IJ["t"] == "map" {
 		ij = core.ToDataMap(c.Prog.IJ["v"])
 	}
-	c.Go = renderGo(comp, c.Prog.Entry, core.ToDataMap(c.Prog.Data), ij, cat)
+	godata := core.ToDataMap(c.Prog.Data)
+	if c.NoData {
+		godata = nil
+	}
+	c.Go = renderGo(comp, c.Prog.Entry, godata, ij, cat)
 	// JS side: translate every file
 	var srcs []jsrun.Source
 	opts := soyjs.Options{}
@@ -226,7 +233,7 @@ func (r *Runner) Exec(c *Case) {
 		pre = append(pre, pluralJS[cat.rule])
 	}
 	resp, rerr := r.Pool.Run(jsrun.Request{Pre: pre, Sources: srcs,
-		Calls: []jsrun.Call{{Fn: c.Prog.Entry, Data: plainMap(c.Prog.Data), IJ: ijd}}, Timeout: 5 * time.Second})
+		Calls: []jsrun.Call{{Fn: c.Prog.Entry, Data: plainMap(c.Prog.Data), IJ: ijd, NoData: c.NoData}}, Timeout: 5 * time.Second})
 	if rerr != nil {
 		c.Skip = "node: " + rerr.Error()
 		return
